@@ -246,3 +246,72 @@ def replay_concrete(sylt, tpl, cvals, max_steps=2_000_000):
     info = {"source": src, "lua": lua, "ref": show_trace(r.events, rout), "lua_trace": show_trace(events, outcome),
             "undeclared_reads": it.undeclared_reads[:10], "global_writes": sorted(it.global_writes)[:10]}
     return bool(d), info
+
+
+# ------------------------------------------------------------------ C02: no dynamic type errors in accepted programs
+BAD_OUTCOMES = ("dynamic_type_error",)
+
+
+def soundness_violation(p):
+    """a path of the emitted chunk violates type soundness when it ends in a dynamic type error, or reads an
+    undeclared V<n> (what real Lua turns into a silent nil: an uninitialised / out-of-scope variable)"""
+    if p["outcome"][0] in BAD_OUTCOMES: return "dynamic_type_error: " + str(p["outcome"][1])[:120]
+    if p.get("undeclared"): return "read of undeclared variable " + p["undeclared"][0]
+    for e in p["events"]:
+        if e[0] == "print" and _has_luanil(e[1]): return "printed value contains an uninitialised (Lua nil) slot"
+    return None
+
+
+def _has_luanil(s):
+    if s[0] == "luanil": return True
+    if s[0] in ("tuple", "list"): return any(_has_luanil(x) for x in s[1])
+    if s[0] == "blob": return any(_has_luanil(x) for x in s[1].values())
+    return False
+
+
+def check_soundness(sylt, tpl, bounds, stats):
+    t0 = time.time()
+    res = {"status": "ok", "paths_ref": 0, "paths_lua": 0, "cut": 0, "undecided": 0, "queries": 0, "diffs": []}
+    src, holes, rc, lua, out = compile_template(sylt, tpl)
+    res["source"] = src
+    if rc != 0 or lua is None:
+        res["status"] = "rejected"; res["compiler_output"] = out[-600:]; return res
+    try: ast = parse(lua)
+    except LuaSyntaxError as e:
+        res["status"] = "load_error"; res["load_error"] = str(e); res["lua"] = lua; return res
+    terms, vals, base = hole_terms(holes, tpl.domains)
+    ast, seen = substitute_placeholders(ast, holes, vals)
+    paths, fk = runner.run_symbolic(ast, base, loop_bound=bounds.loop + 1, call_depth=2 * bounds.depth + 8, max_paths=bounds.paths,
+                                    timeout_ms=bounds.timeout_ms, stats=stats)
+    res["cut"] += fk.cut_paths; res["undecided"] += fk.undecided
+    for p in paths:
+        res["paths_lua"] += 1
+        if p["kind"] != "ok": continue
+        why = soundness_violation(p)
+        if why is None: continue
+        s = z3.Solver(); s.set("timeout", bounds.timeout_ms); s.add(base); s.add(p["pc"])
+        r = stats.check(s); res["queries"] += 1
+        if r != z3.sat:
+            if r != z3.unsat: res["undecided"] += 1
+            continue
+        m = s.model(); cvals = {}
+        for name, t in terms.items():
+            v = m.eval(t, model_completion=True); ty = holes.by_name[name][1]
+            cvals[name] = v.as_long() if ty == "int" else (v.as_string() if ty == "str" else fp_const_value(v))
+        res["diffs"].append({"holes": cvals, "why": why, "ref": None, "lua": show_trace(p["events"], p["outcome"], m)})
+        break
+    if res["diffs"]: res["status"] = "diff"
+    elif res["undecided"]: res["status"] = "undecided"
+    res["lua"] = lua; res["wall_s"] = round(time.time() - t0, 3)
+    return res
+
+
+def replay_soundness(sylt, tpl, cvals, max_steps=2_000_000):
+    src, holes, rc, lua, out = compile_template(sylt, tpl, concrete=cvals)
+    if rc != 0 or lua is None: return None, {"why": "concretised program rejected", "source": src}
+    try: ast = parse(lua)
+    except LuaSyntaxError as e: return None, {"why": "concretised chunk does not load: %s" % e, "source": src, "lua": lua}
+    events, outcome, it = runner.run_concrete(ast, max_steps)
+    p = {"outcome": outcome, "undeclared": it.undeclared_reads, "events": events}
+    why = soundness_violation(p)
+    return (why is not None), {"source": src, "lua": lua, "ref": {"expected": "no dynamic type error"}, "lua_trace": dict(show_trace(events, outcome), why=why)}
